@@ -16,7 +16,7 @@ TRUSTED = ["hand-written model Model/ForceSys.v tied to fmatrix._build_matrix/ge
 ASSUMPTIONS = ["circle-fit accuracy (fit_delta, calibrated by tools/calibrate_fit.py after the fix of D25): 1e-5 (dlite) / 1e-6 (taubinSVD) on arcs, 1e-3 on "
                "straight interfaces with >= 3 points, 1e-12 for two-point interfaces"]
 TESTED_NOT_PROVED = ["that the fitted centre is the centre of the arc (circle-fit contract) is checked numerically per interface"]
-IMPORTS = "From Forsys Require Import Model.Num Model.CaseUtil Model.PyList Model.Interfaces Model.ForceSys.\n"
+IMPORTS = "From Forsys Require Import Model.Num Model.CaseUtil Model.PyList Model.Interfaces Model.ForceSys Model.CircleFit.\n"
 
 
 def iface_theta(it):
@@ -253,9 +253,75 @@ def tissues(rng, tier):
         yield spec, f"t{k}/kind{kind}"
 
 
+def nested_function(fn, name, cells):
+    """the function object of a nested def of fn (its code constant), closed over the given cell contents"""
+    import types
+    code = next(c_ for c_ in fn.__code__.co_consts if isinstance(c_, types.CodeType) and c_.co_name == name)
+    return types.FunctionType(code, fn.__globals__, name, None, tuple(types.CellType(cells[v]) for v in code.co_freevars))
+
+
+def fit_cases(res, rng, exprs, n):
+    """Model/CircleFit.v against virtual_edges.py: the residual vector of the 'dlite' fit (PrimFloat, 1e-11) and the decision / result of the
+    shortcut for collinear points (decision exact over Q on dyadic points, far centre in PrimFloat)"""
+    from types import SimpleNamespace as V
+    from fractions import Fraction
+    for k in range(n):
+        m = int(rng.integers(3, 11))
+        ang = np.sort(rng.uniform(0, float(rng.uniform(0.2, 3.0)), m)) + rng.uniform(0, 6.28)
+        rad = float(rng.uniform(1, 50))
+        xs = rad * np.cos(ang) + rng.uniform(-50, 50) + rng.normal(0, 0.01 * rad * (k % 2), m)
+        ys = rad * np.sin(ang) + rng.uniform(-50, 50) + rng.normal(0, 0.01 * rad * (k % 2), m)
+        c = (float(rng.uniform(-100, 100)), float(rng.uniform(-100, 100)))
+        try:
+            obj = nested_function(impl.ve.dlite_circle_method, "objective_f", {"xs": np.asarray(xs, dtype=float), "ys": np.asarray(ys, dtype=float)})
+            vals = [float(x) for x in obj(c)]
+        except Exception as ex:  # noqa
+            res.fail("correspondence", f"objective_f of dlite_circle_method could not be evaluated: {type(ex).__name__}: {str(ex)[:80]}",
+                     {"correspondence": "Model/CircleFit.v objective vs virtual_edges.dlite_circle_method.objective_f"})
+            return
+        pts = "[" + "; ".join(f"({C.flit(x)}, {C.flit(y)})" for x, y in zip(xs, ys)) + "]"
+        exprs.append((f"listF_close {C.flit(1e-11)} (objective FOps ({C.flit(c[0])}, {C.flit(c[1])}) {pts}) [" + "; ".join(C.flit(x) for x in vals) + "]",
+                      {"what": "dlite residual vector", "xs": [float(x) for x in xs], "ys": [float(y) for y in ys], "c": c}))
+        res.count("dlite residual vector (PrimFloat)")
+    for k in range(n):
+        # dyadic points on / near a chord of length 2^10 (axis-aligned or diagonal): offsets of 0, 1, 2, 3 quanta of 2^-30 straddle 1e-12 x chord^2
+        m = int(rng.integers(3, 8))
+        L = 1024
+        diag = bool(k % 3 == 1)
+        x0, y0 = int(rng.integers(-512, 512)), int(rng.integers(-512, 512))
+        ts = sorted(int(t_) for t_ in rng.choice(np.arange(1, L), size=m - 2, replace=False))
+        es = [int(rng.integers(-3, 4)) if k % 2 else 0 for _ in ts]
+        if k % 5 == 4:
+            es = [int(rng.integers(-2 ** 20, 2 ** 20)) for _ in ts]          # clearly not collinear
+        q = Fraction(1, 2 ** 30)
+        P = [(Fraction(x0), Fraction(y0))]
+        for t_, e_ in zip(ts, es):
+            P.append((x0 + t_ - (e_ * q if diag else 0), y0 + (t_ if diag else 0) + e_ * q))
+        P.append((Fraction(x0 + L), Fraction(y0 + (L if diag else 0))))
+        if k % 7 == 6:
+            P = [(b_, a_) for a_, b_ in P]
+        verts = [V(x=float(a_), y=float(b_)) for a_, b_ in P]
+        assert all(Fraction(w.x) == a_ and Fraction(w.y) == b_ for w, (a_, b_) in zip(verts, P))
+        fit = ("dlite", "taubinSVD")[k % 2]
+        with impl.quiet():
+            cx, cy = impl.ve.calculate_circle_center(verts, method=fit)
+        fx = [w.x for w in verts]
+        fy = [w.y for w in verts]
+        dx, dy = fx[-1] - fx[0], fy[-1] - fy[0]
+        taken = (float(cx), float(cy)) == (float(np.mean(fx) - 1e8 * dy), float(np.mean(fy) + 1e8 * dx))
+        qpts = "[" + "; ".join(f"({C.qlit(a_)}, {C.qlit(b_)})" for a_, b_ in P) + "]"
+        fpts = "[" + "; ".join(f"({C.flit(w.x)}, {C.flit(w.y)})" for w in verts) + "]"
+        e = f"Bool.eqb (shortcut_taken QOps (1 # 1000000000000) {qpts}) {C.blit(taken)}"
+        if taken:
+            e += (f" && (let c := far_centre FOps {C.flit(1e8)} {fpts} in fclose {C.flit(1e-12)} (fst c) {C.flit(cx)} && fclose {C.flit(1e-12)} (snd c) {C.flit(cy)})")
+        exprs.append((e, {"what": "collinear shortcut", "points": [[float(a_), float(b_)] for a_, b_ in P], "fit": fit, "taken": taken}))
+        res.count("collinear shortcut: taken" if taken else "collinear shortcut: not taken")
+
+
 def run(res, tier, seed):
     rng = np.random.default_rng(seed)
     exprs = []
+    fit_cases(res, rng, exprs, 12 if tier == "quick" else 120)
     for spec, label in tissues(rng, tier):
         for fit in ("dlite", "taubinSVD"):
             check_case(res, spec, fit, bool(rng.integers(0, 2)), exprs, label)
@@ -263,6 +329,10 @@ def run(res, tier, seed):
     for (e, rp), b in zip(exprs, bools):
         res.traces += 1
         if b is not True:
+            if isinstance(rp, dict) and rp.get("what") in ("dlite residual vector", "collinear shortcut"):
+                res.fail("correspondence", f"model != implementation ({rp['what']})" if b is False else "case did not evaluate",
+                         {"correspondence": "Model/CircleFit.v vs virtual_edges.calculate_circle_center / dlite_circle_method", "case": rp})
+                continue
             res.fail("correspondence", "model != implementation (matrix structure / placement / orientation)" if b is False else "case did not evaluate",
                      {"correspondence": "Model/ForceSys.v vs fmatrix._build_matrix / edge.get_vector_from_vertex", "case": rp})
 
